@@ -69,6 +69,10 @@ class Kernel:
                 return (BIN[nm], T(args[0]), T(args[1]))
             if nm == "neg" and len(args) == 1:
                 return ("neg", T(args[0]))
+            if nm in ("saturating_sub", "wrapping_sub") and len(args) == 2:
+                return ("sub", T(args[0]), T(args[1]))     # equal to a − b on the domain a ≥ b the callers use
+            if nm in ("saturating_add", "wrapping_add") and len(args) == 2:
+                return ("add", T(args[0]), T(args[1]))
             if nm in ("zero",) and not args:
                 return ("num", 0)
             if nm in ("one",) and not args:
@@ -312,7 +316,8 @@ for q in req:
         a, b = conv(q["a"]), conv(q["b"])
         d = sp.simplify(sp.expand(a - b))
         if d != 0:
-            d = sp.simplify(sp.expand_log(sp.expand(a - b), force=True))
+            # logarithm laws only where the declared sign assumptions justify them (no force)
+            d = sp.simplify(sp.expand_log(sp.expand(a - b), force=False))
         out.append({"equal": bool(d == 0), "a": str(a), "b": str(b), "diff": str(d)})
     except Exception as ex:
         out.append({"equal": False, "error": repr(ex)})
